@@ -415,8 +415,39 @@ Definition startup_nonces (k : sys_case) : list string :=
   flat_map (fun x => match x with OResp _ nc _ => [nc] | _ => [] end) (sk_startup k).
 Definition spec_c04 (k : sys_case) : bool := negb (sk_fatal k) && c04_ok (start_snap k) 0 (startup_nonces k) true false (sk_trace k).
 
-(** ---- C10: resolution returns exactly the endpoints cached for the cluster ---- *)
-Fixpoint c10_ok (prev : snap) (tr : list (op * step_obs)) : bool :=
+(** ---- C10: resolution returns exactly the endpoints the control plane lists for the cluster ---- *)
+(** the cluster [d] according to the fold of the history so far *)
+Definition cl_view (c : scfg) (o : oracle) (pre : list op) (d : string) : keyview :=
+  fold_left (kv_step c o TCl d) pre kv_init.
+
+(** the per-key fold for an endpoint set: as [kv_step], except that a resolution looks up the endpoint set named by
+    the cluster it finds (which is read off the cluster's own fold over the history so far) *)
+Fixpoint ep_fold (c : scfg) (o : oracle) (n : string) (pre : list op) (v : keyview) (h : list op) : keyview :=
+  match h with
+  | [] => v
+  | x :: r =>
+      let v' := match x with
+                | OResolve d =>
+                    match kv_val (cl_view c o pre d) with
+                    | Some (VCl cl) => match c_inline cl with
+                                       | Some _ => v
+                                       | None => kv_lookup TEp n v TEp (c_epname cl)
+                                       end
+                    | _ => v
+                    end
+                | _ => kv_step c o TEp n v x
+                end in
+      ep_fold c o n (pre ++ [x])%list v' r
+  end.
+Definition ep_view (c : scfg) (o : oracle) (pre : list op) (n : string) : keyview := ep_fold c o n [] kv_init pre.
+
+(** what a resolution of [d] must return after the history [pre]: [resolve] applied to the folds *)
+Definition expected_resolution (c : scfg) (o : oracle) (pre : list op) (d : string) : option (list (string * N)) :=
+  resolve (match kv_val (cl_view c o pre d) with Some (VCl cl) => GOk cl | _ => GErr end)
+          (fun e => match kv_val (ep_view c o pre e) with Some (VEp x) => GOk x | _ => GErr end).
+
+(** (a) against the implementation's own previous snapshot; (b) against the fold of the history *)
+Fixpoint c10_ok (c : scfg) (o : oracle) (pre : list op) (prev : snap) (tr : list (op * step_obs)) : bool :=
   match tr with
   | [] => true
   | (x, ob) :: r =>
@@ -425,11 +456,13 @@ Fixpoint c10_ok (prev : snap) (tr : list (op * step_obs)) : bool :=
           let cl := match aget d (snap_cache prev TCl) with Some (VCl c) => GOk c | _ => GErr end in
           let eds := fun n => match aget n (snap_cache prev TEp) with Some (VEp e) => GOk e | _ => GErr end in
           opt_eqb lres_eqb (so_lookup ob) (Some (LResolved (resolve cl eds))) &&
+          opt_eqb lres_eqb (so_lookup ob) (Some (LResolved (expected_resolution c o pre d))) &&
           match so_lookup ob with Some (LResolved (Some [])) => false | _ => true end
       | _ => true
-      end && c10_ok (so_snap ob) r
+      end && c10_ok c o (pre ++ [x])%list (so_snap ob) r
   end.
-Definition spec_c10 (k : sys_case) : bool := negb (sk_fatal k) && c10_ok (start_snap k) (sk_trace k).
+Definition spec_c10 (k : sys_case) : bool :=
+  negb (sk_fatal k) && c10_ok (sk_cfg k) (sk_oracle k) (sk_startup k) (start_snap k) (sk_trace k).
 
 (** ---- C19: eviction ---- *)
 (** last time each (type, name) was looked up or (failing that) first cached, from the history and
